@@ -173,6 +173,13 @@ class Gen:
         for m in self.S["messages"]:
             self.emit_tagkeys(m, [], "::%s::schema::messages::%s" % (self.ns, m["name"]))
         L.append("namespace {")
+        for i, t in enumerate(self.S["types"]):
+            if t["kind"] == "enum":
+                E = "::%s::types::%s" % (self.ns, t["name"])
+                L.append("VH_ENUM_BEGIN(%d, %s)" % (i, E))
+                for val in t["values"]:
+                    L.append('VH_ENUM_VALUE(%s, ::%s::schema::types::%s::%s, "%s")' % (E, self.ns, t["name"], val["name"], val["name"]))
+                L.append('VH_ENUM_END(%d, "%s", %s)' % (i, t["name"], E))
         for m in self.S["messages"]:
             M = "::%s::messages::%s<VH_BYTE>" % (self.ns, m["name"])
             L.append("// ---- message %s" % m["name"])
@@ -185,6 +192,21 @@ class Gen:
 
 def dispatch_cpp(S):
     return Gen(S).generate()
+
+
+def enums_tla(S):
+    """public enums of the schema as the Enums constant of spec/EnumVisit.tla;
+    values become their underlying code (characters by character code)"""
+    types = {t["name"]: t for t in S["types"]}
+    out = []
+    for t in S["types"]:
+        if t["kind"] != "enum":
+            continue
+        prim = t["enc"] if t["enc"] in PRIMS else types[t["enc"]]["prim"]
+        w = {"char": 1, "int8": 1, "uint8": 1, "int16": 2, "uint16": 2}.get(prim, 4)
+        vals = [{"name": v["name"], "code": ord(v["value"]) if prim == "char" else int(v["value"])} for v in t["values"]]
+        out.append({"name": t["name"], "w": w, "values": vals})
+    return sch.tla(out)
 
 
 # ------------------------------------------------- constant evaluation (C02) --
